@@ -87,8 +87,11 @@ macro_rules! make_subject {
         };
         let dispatch =
             cucumber::verif::take_dispatch().expect("hook H3 did not hand over the Dispatch");
+        // (a template kept around while a clone of it runs, as in a test matrix)
+        let keep = cfg.clone_alive.then(|| c.clone());
         let fut = async move {
             let _ = c.run(()).await;
+            drop(keep);
         }
         .boxed_local();
         let b: Box<dyn Subject> =
@@ -150,13 +153,17 @@ pub fn family(tier: Tier) -> Vec<Config> {
                             (Some(2), false, false),
                             (Some(2), true, false),
                             (Some(2), false, true),
+                            // a clone of the Cucumber kept alive (flagged by conc Some(3))
+                            (Some(3), false, false),
                         ] {
-                            if (outer || warn) && (gates == GateMode::All || fault != "none") {
+                            let clone_alive = conc == Some(3);
+                            if (outer || warn || clone_alive) && (gates == GateMode::All || fault != "none") {
                                 continue;
                             }
                             let mut cfg = Config::default();
                             cfg.outer_span = outer;
                             cfg.warn_filter = warn;
+                            cfg.clone_alive = clone_alive;
                             let mut tags: Vec<&str> = vec![];
                             if retry > 0 {
                                 tags.push("retry(1)");
@@ -198,10 +205,11 @@ pub fn family(tier: Tier) -> Vec<Config> {
                             }
                             cfg.max_execs = if tier == Tier::Quick { 4_000 } else { 400_000 };
                             cfg.name = format!(
-                                "trace/n{nsc}|lb{lb}la{la}|r{retry}|{fault}|g{gates:?}|c{conc:?}|hooks{}|outer{}|warn{}",
+                                "trace/n{nsc}|lb{lb}la{la}|r{retry}|{fault}|g{gates:?}|c{conc:?}|hooks{}|outer{}|warn{}|clone{}",
                                 u8::from(hooks),
                                 u8::from(outer),
-                                u8::from(warn)
+                                u8::from(warn),
+                                u8::from(clone_alive)
                             );
                             out.push(cfg);
                         }
